@@ -584,17 +584,16 @@ pub fn main(args: &[String]) -> i32 {
 	let count: u64 = args[1].parse().unwrap();
 	let mut out = Out::new(&args[2]);
 	let dir = std::path::PathBuf::from(&args[2]).join("db");
-	let mut rng = Rng::new(seed ^ 0xC10);
 	let mut oracle = String::new();
 	let mut dist: BTreeMap<String, u64> = BTreeMap::new();
 	let mut nontrivial = std::collections::HashSet::new();
-	let only: Option<u64> = std::env::var("VERIF_ONLY").ok().and_then(|v| v.parse().ok());
 	for case_no in 0..count {
-		let case = gen_case(&mut rng);
-		if only.map_or(false, |o| o != case_no) {
+		let mut rng = crate::util::case_rng(seed ^ 0xC10, case_no);
+		if crate::util::skip_case(case_no) {
 			continue
 		}
-		if only.is_some() {
+		let case = gen_case(&mut rng);
+		if std::env::var("VERIF_ONLY").is_ok() && std::env::var("VERIF_DEBUG").is_ok() {
 			eprintln!("{:#?}", case.steps);
 		}
 		let toks = case_tokens(&case);
